@@ -1,5 +1,6 @@
 SPECIFICATION Spec
 CONSTANTS
+  Tombstones = "none"
   Admission = FALSE
   Clusters = {"a", "b"}
   Aliases = {"x", "y"}
